@@ -140,6 +140,8 @@ var mapModel = porcupine.Model{
 			return out == strings.Join(ks, ","), st
 		case "Range":
 			return out == st.String(), st
+		case "RangeStop":
+			return true, st
 		case "Clear":
 			return true, mapState{}
 		}
@@ -170,6 +172,9 @@ func doMapOp(m cmap.Map[string, int], in opIn) string {
 		st := mapState{}
 		m.Range(func(k string, v int) bool { st[k] = v; return true })
 		return st.String()
+	case "RangeStop":
+		// a caller that stops the walk at the first element
+		m.Range(func(string, int) bool { return false })
 	case "Clear":
 		m.Clear()
 	}
@@ -282,7 +287,13 @@ var sliceModel = porcupine.Model{
 		out := output.(string)
 		n := 0
 		if st != "" {
-			n = len(strings.Split(st, ","))
+			for _, tok := range strings.Split(st, ",") {
+				c := 1
+				if i := strings.IndexByte(tok, 'x'); i > 0 {
+					fmt.Sscanf(tok[i+1:], "%d", &c)
+				}
+				n += c
+			}
 		}
 		switch in.Name {
 		case "Append":
@@ -299,6 +310,13 @@ var sliceModel = porcupine.Model{
 			}
 			ns += fmt.Sprintf("%d,%d", in.V, in.V+1)
 			return out == fmt.Sprint(n+2), ns
+		case "AppendBig":
+			ns := st
+			if ns != "" {
+				ns += ","
+			}
+			ns += fmt.Sprintf("%dx%d", in.V, bigAppend)
+			return out == fmt.Sprint(n+bigAppend), ns
 		case "Len":
 			return out == fmt.Sprint(n), st
 		case "Slice":
@@ -451,12 +469,31 @@ func mkSlice(s script, c *cache) *mc.Exec {
 							return fmt.Sprint(sl.Append(in.V))
 						case "Append2":
 							return fmt.Sprint(sl.Append(in.V, in.V+1))
+						case "AppendBig":
+							// one call with thousands of items is still one operation
+							items := make([]int, bigAppend)
+							for k := range items {
+								items[k] = in.V
+							}
+							return fmt.Sprint(sl.Append(items...))
 						case "Len":
 							return fmt.Sprint(sl.Len())
 						}
 						var o []string
-						for _, v := range sl.Slice() {
-							o = append(o, fmt.Sprint(v))
+						vals := sl.Slice()
+						for k := 0; k < len(vals); {
+							j := k
+							for j < len(vals) && vals[j] == vals[k] {
+								j++
+							}
+							if j-k >= 100 { // a run (of one big Append): "value x count"
+								o = append(o, fmt.Sprintf("%dx%d", vals[k], j-k))
+							} else {
+								for q := k; q < j; q++ {
+									o = append(o, fmt.Sprint(vals[q]))
+								}
+							}
+							k = j
 						}
 						return strings.Join(o, ",")
 					})
@@ -585,6 +622,8 @@ func mkSliceCallerMemory(first, later int, spare int) *mc.Exec {
 	return &mc.Exec{Body: body, Check: check}
 }
 
+const bigAppend = 4100
+
 func scenarios() []hx.Scenario {
 	var out []hx.Scenario
 	for _, first := range []int{1, 3} {
@@ -599,7 +638,12 @@ func scenarios() []hx.Scenario {
 		}
 	}
 	opts := mc.Options{Bound: 12, MinBound: 12, TieCost: 0, MaxSteps: 2000} // effectively unbounded for these bodies
+	seenName := map[string]bool{}
 	add := func(kind string, s script, thoroughOnly bool, mk func(script, *cache) *mc.Exec) {
+		if seenName[kind+" "+s.String()] {
+			return // the same script from an overlapping alphabet
+		}
+		seenName[kind+" "+s.String()] = true
 		c := &cache{m: map[string]bool{}}
 		out = append(out, hx.Scenario{
 			Name: kind + " " + s.String(), Class: kind + "/linearizability", ThoroughOnly: thoroughOnly, Opts: opts,
@@ -639,6 +683,18 @@ func scenarios() []hx.Scenario {
 	}
 	for _, s := range tuples(atSmall, []int{2, 2, 2}) {
 		add("cmap.Atomic", s, true, mkAtomic)
+	}
+	// a walk the caller stops early, next to writers (it must leave the map usable)
+	for _, sh := range [][]int{{2, 2}, {1, 1, 1}} {
+		for _, s := range tuples([]opIn{{"Store", "a", 1}, {"RangeStop", "", 0}, {"Store", "b", 2}, {"Len", "", 0}}, sh) {
+			add("cmap.Map", s, false, mkMap)
+		}
+	}
+	// one Append of thousands of items next to readers and another appender
+	for _, sh := range [][]int{{1, 1}, {2, 2}, {1, 1, 1}} {
+		for _, s := range tuples([]opIn{{"AppendBig", "", 7}, {"Append", "", 1}, {"Len", "", 0}, {"Slice", "", 0}}, sh) {
+			add("slice.Slice", s, len(sh) == 2 && sh[0] == 2, mkSlice)
+		}
 	}
 	slAlpha := []opIn{{"Append", "", 1}, {"Append2", "", 2}, {"Len", "", 0}, {"Slice", "", 0}}
 	for _, shape := range [][]int{{2, 2}, {1, 1, 1}, {3, 3}} {
